@@ -1,11 +1,533 @@
-//! C18 (not built yet)
-use crate::report::{Disagreement, Run};
-use serde_json::Value;
+//! C18 Re-entering a cell's displayed content reproduces the cell.
+//!
+//! Space, in every (language, locale) pair (5 x 6 = 30): every string of length <= L over C19's 16-symbol numeric
+//! alphabet (quick L=4, thorough L=5), every string of length <= 3 over a 22-symbol formula-ish alphabet, a list of
+//! look-alikes, the boolean and error names of all five languages in three casings, and a formula corpus localised
+//! by the engine itself.
+//! Oracle: x -> cell1; y = get_localized_cell_content; y typed into the same cell -> cell2; content text, cell kind,
+//! resolved style must be equal, the value equal to 15 significant digits.
 
-pub fn run(run: &mut Run) {
-    run.machinery_errors.push("C18: check not built yet".into());
+use crate::fnum::{cell_kind, eq15, fmt_kind, for_each_with_prefix, Kind, LANGS, LOCALES};
+use crate::props::c19::ALPHABET as NUM_ALPHABET;
+use crate::props::c23::all_errors;
+use crate::report::{Disagreement, Run};
+use ironcalc_base::cell::CellValue;
+use ironcalc_base::language::get_language;
+use ironcalc_base::types::Style;
+use ironcalc_base::Model;
+use serde_json::{json, Value};
+use std::collections::BTreeSet;
+
+pub const FORMULA_ALPHABET: [char; 22] = [
+    '=', 'A', '1', '+', '-', '(', ')', '"', '\'', ',', ';', '.', ' ', ':', '$', '#', '%', '&', 'E', '{', '}', '/',
+];
+
+pub const LOOKALIKES: [&str; 40] = [
+    "'123", "'TRUE", "'=1", "1,5", "1.5", "TRUE ", " 12", "1e5", "0012", "12/13/2020", "13/12/2020", "2020-01-02",
+    "'", "''", "'#N/A", "true", "True", "FALSE", "#N/A", "#DIV/0!", "#n/a", "1e-5", "0.00001", "1E+20", "123456789012345678",
+    "0.1234567890123456", "-0", "1,234.5", "1.234,5", "$1,234.50", "1,234.50 €", "50%", "5.5%", "-$5", "=1", "=A2", "= 1",
+    "http://a.b", "a@b.c", "'http://a.b",
+];
+
+/// English formulas; each is typed in an en/en model and then displayed in the target language/locale.
+pub const CORPUS: [&str; 30] = [
+    "=1+2",
+    "=A2*2",
+    "=SUM(A2:B3)",
+    "=1.5+2.25",
+    "=IF(TRUE,1,2)",
+    "=\"a\"&\"b\"",
+    "={1,2;3,4}",
+    "=SUM({1.5,2})",
+    "=A2^2",
+    "=1/0",
+    "=#N/A",
+    "=TRUE",
+    "=ROUND(2.5,0)",
+    "=Sheet1!A2",
+    "=$A$2+A$2",
+    "=1E+3",
+    "=(1+2)*3",
+    "=\"1,5\"",
+    "=AND(TRUE,FALSE)",
+    "=DATE(2020,1,2)",
+    "=TEXT(1.5,\"0.00\")",
+    "=-A2",
+    "=A2%",
+    "=MAX(1,2.5,A2)",
+    "=IFERROR(1/0,\"x\")",
+    "=A2<>B2",
+    "=CONCATENATE(\"a\",1.5)",
+    "=SUM(A:A)",
+    "=SUM(2:2)",
+    "=A2:A3",
+];
+
+#[derive(Clone, Debug)]
+pub struct CellObs {
+    pub content: String,
+    pub kind: Kind,
+    pub value: String,
+    pub number: Option<f64>,
+    pub style: Style,
 }
 
-pub fn replay(_case: &Value) -> Vec<Disagreement> {
-    vec![]
+pub struct Pair {
+    pub lang: &'static str,
+    pub locale: &'static str,
+    pub model: Model<'static>,
+    pub always_evaluate: bool,
+    inputs: usize,
+}
+
+impl Pair {
+    pub fn new(lang: &'static str, locale: &'static str) -> Pair {
+        Pair {
+            lang,
+            locale,
+            model: Model::new_empty("c18", locale, "UTC", lang).expect("model"),
+            always_evaluate: false,
+            inputs: 0,
+        }
+    }
+    fn reset_if_big(&mut self) {
+        self.inputs += 1;
+        if self.inputs > 20_000 {
+            let ae = self.always_evaluate;
+            *self = Pair::new(self.lang, self.locale);
+            self.always_evaluate = ae;
+        }
+    }
+    fn clear(&mut self) {
+        let ws = &mut self.model.workbook.worksheets[0];
+        ws.sheet_data.clear();
+        ws.links.clear();
+    }
+    fn observe(&mut self) -> CellObs {
+        let m = &mut self.model;
+        let mut kind = cell_kind(m, 0, 1, 1);
+        if kind == Kind::Formula {
+            // a formula over whole rows or columns (`=+1:5`, `=+E:E`) spills up to a million cells: enumerated
+            // inputs with a range operator are not evaluated (only text, kind and style are compared)
+            let text = m.get_localized_cell_content(0, 1, 1).unwrap_or_default();
+            if self.always_evaluate || !has_row_range(&text) {
+                m.evaluate();
+                kind = cell_kind(m, 0, 1, 1);
+            }
+        }
+        let v = m.get_cell_value_by_index(0, 1, 1);
+        let (value, number) = match &v {
+            Ok(CellValue::Number(f)) => (format!("number {}", f), Some(*f)),
+            Ok(CellValue::String(s)) => (format!("text `{}`", s), None),
+            Ok(CellValue::Boolean(b)) => (format!("boolean {}", b), None),
+            Ok(CellValue::None) => ("empty".to_string(), None),
+            Err(e) => (format!("Err({})", e), None),
+        };
+        CellObs {
+            content: m.get_localized_cell_content(0, 1, 1).unwrap_or_else(|e| format!("Err({})", e)),
+            kind,
+            value,
+            number,
+            style: m.get_style_for_cell(0, 1, 1).unwrap_or_default(),
+        }
+    }
+}
+
+/// A range operator in the text: whole rows or columns (`=+1:5`, `=+E:E`) spill up to a million cells.
+fn has_row_range(text: &str) -> bool {
+    text.contains(':')
+}
+
+fn kind_class(k: &Kind) -> String {
+    k.name().to_string()
+}
+
+fn style_diff(a: &Style, b: &Style) -> Vec<String> {
+    let cur = ["$", "€", "£"];
+    let mut v = vec![];
+    if a.num_fmt != b.num_fmt {
+        v.push(format!(
+            "style.num_fmt:{}->{}",
+            fmt_kind(&a.num_fmt, &cur).name(),
+            fmt_kind(&b.num_fmt, &cur).name()
+        ));
+    }
+    if a.quote_prefix != b.quote_prefix {
+        v.push(format!("style.quote_prefix:{}->{}", a.quote_prefix, b.quote_prefix));
+    }
+    if a.alignment != b.alignment {
+        v.push("style.alignment".into());
+    }
+    if a.font != b.font {
+        v.push("style.font".into());
+    }
+    if a.fill != b.fill {
+        v.push("style.fill".into());
+    }
+    if a.border != b.border {
+        v.push("style.border".into());
+    }
+    v
+}
+
+/// Compares the cell made by `x` with the cell made by re-typing its displayed content.
+fn compare(lang: &str, c1: &CellObs, c2: &CellObs) -> Option<(String, String)> {
+    let mut diffs: Vec<String> = vec![];
+    let mut lines: Vec<String> = vec![];
+    if c1.content != c2.content {
+        diffs.push("content".into());
+        lines.push(format!("content `{}` -> `{}`", c1.content, c2.content));
+    }
+    let same_kind = match (&c1.kind, &c2.kind) {
+        (Kind::Number(a), Kind::Number(b)) => {
+            if !eq15(*a, *b) {
+                diffs.push("value".into());
+                lines.push(format!("number {} -> {}", a, b));
+            }
+            true
+        }
+        (Kind::Formula, Kind::Formula) => {
+            let same = match (c1.number, c2.number) {
+                (Some(a), Some(b)) => eq15(a, b),
+                _ => c1.value == c2.value,
+            };
+            if !same {
+                diffs.push("value".into());
+                lines.push(format!("formula value {} -> {}", c1.value, c2.value));
+            }
+            true
+        }
+        (a, b) => a == b,
+    };
+    if !same_kind {
+        diffs.push(format!("kind:{}->{}", kind_class(&c1.kind), kind_class(&c2.kind)));
+        lines.push(format!("cell {:?} -> {:?}", c1.kind, c2.kind));
+    }
+    let sd = style_diff(&c1.style, &c2.style);
+    if !sd.is_empty() {
+        lines.push(format!(
+            "style: num_fmt `{}` -> `{}`, quote_prefix {} -> {}",
+            c1.style.num_fmt, c2.style.num_fmt, c1.style.quote_prefix, c2.style.quote_prefix
+        ));
+        diffs.extend(sd);
+    }
+    if diffs.is_empty() {
+        return None;
+    }
+    let cur = ["$", "€", "£"];
+    let first = match &c1.kind {
+        Kind::Number(x) if !x.is_finite() => "number/non-finite".to_string(),
+        Kind::Number(_) => format!("number/{}", fmt_kind(&c1.style.num_fmt, &cur).name()),
+        Kind::Formula if c1.content.contains("#REF!") => "formula/with-#REF!".to_string(),
+        Kind::Formula if c1.content.contains(':') => "formula/with-range-operator".to_string(),
+        k => kind_class(k),
+    };
+    // the display of booleans and errors depends on the language: name it in the signature
+    let lang_part = match &c1.kind {
+        Kind::Boolean(_) | Kind::Error(_) => format!(" lang={}", lang),
+        _ => String::new(),
+    };
+    Some((
+        format!("reentry first={}{} diff={}", first, lang_part, diffs.join(",")),
+        lines.join("; "),
+    ))
+}
+
+pub struct Outcome {
+    pub d: Option<Disagreement>,
+    pub first: Option<CellObs>,
+    pub changed_text: bool,
+}
+
+/// x typed -> cell1; its displayed content typed into the same cell -> cell2.
+pub fn check_input(p: &mut Pair, x: &str, family: &str) -> Outcome {
+    let t0 = std::time::Instant::now();
+    let o = check_input_inner(p, x, family);
+    if std::env::var("VERIF_C18_SLOW").is_ok() && t0.elapsed().as_millis() > 20 {
+        eprintln!("slow: {} ms [{}/{}] `{}`", t0.elapsed().as_millis(), p.lang, p.locale, x);
+    }
+    o
+}
+
+fn check_input_inner(p: &mut Pair, x: &str, family: &str) -> Outcome {
+    p.reset_if_big();
+    let case = json!({"lang": p.lang, "locale": p.locale, "input": x, "family": family});
+    let (lang, locale) = (p.lang, p.locale);
+    let r = crate::env::guarded(|| {
+        p.clear();
+        if p.model.set_user_input(0, 1, 1, x.to_string()).is_err() {
+            return None;
+        }
+        let c1 = p.observe();
+        if p.model.set_user_input(0, 1, 1, c1.content.clone()).is_err() {
+            let c2 = CellObs { content: "<input rejected>".into(), ..c1.clone() };
+            return Some((c1, c2));
+        }
+        let c2 = p.observe();
+        Some((c1, c2))
+    });
+    match r {
+        Ok(None) => Outcome { d: None, first: None, changed_text: false },
+        Ok(Some((c1, c2))) => {
+            let d = compare(lang, &c1, &c2).map(|(sig, detail)| Disagreement {
+                sig,
+                case,
+                detail: format!(
+                    "[{}/{}] typing `{}` shows `{}`; typing that back: {}",
+                    lang, locale, x, c1.content, detail
+                ),
+            });
+            let changed_text = c1.content != x;
+            Outcome { d, first: Some(c1), changed_text }
+        }
+        Err(e) => {
+            *p = Pair::new(lang, locale);
+            Outcome {
+                d: Some(Disagreement {
+                    sig: format!("panic at={}", e.rsplit(" @ ").next().unwrap_or("?")),
+                    case,
+                    detail: format!("[{}/{}] typing `{}` and its content back panics: {}", lang, locale, x, e),
+                }),
+                first: None,
+                changed_text: false,
+            }
+        }
+    }
+}
+
+/// Corpus formula: typed in English in an en/en model, the model is switched to (lang, locale), the displayed
+/// content is typed back.
+pub fn check_corpus(lang: &'static str, locale: &'static str, formula: &str) -> Outcome {
+    let case = json!({"lang": lang, "locale": locale, "input": formula, "family": "corpus"});
+    let mut shown = String::new();
+    let r = crate::env::guarded(|| {
+        // the formula as the target language/locale displays it
+        let mut e = Pair::new("en", "en");
+        if e.model.set_user_input(0, 1, 1, formula.to_string()).is_err() {
+            return None;
+        }
+        if e.model.set_locale(locale).is_err() || e.model.set_language(lang).is_err() {
+            return None;
+        }
+        let x = e.model.get_localized_cell_content(0, 1, 1).ok()?;
+        shown = x.clone();
+        // typed by a user of that language/locale
+        let mut p = Pair::new(lang, locale);
+        p.always_evaluate = true;
+        let _ = p.model.set_user_input(0, 2, 1, "3".to_string());
+        let _ = p.model.set_user_input(0, 2, 2, "4".to_string());
+        if p.model.set_user_input(0, 1, 1, x).is_err() {
+            return None;
+        }
+        let c1 = p.observe();
+        if p.model.set_user_input(0, 1, 1, c1.content.clone()).is_err() {
+            let c2 = CellObs { content: "<input rejected>".into(), ..c1.clone() };
+            return Some((c1, c2));
+        }
+        let c2 = p.observe();
+        Some((c1, c2))
+    });
+    match r {
+        Ok(None) => Outcome { d: None, first: None, changed_text: false },
+        Ok(Some((c1, c2))) => {
+            let d = compare(lang, &c1, &c2).map(|(sig, detail)| Disagreement {
+                sig: format!("corpus {}", sig),
+                case,
+                detail: format!(
+                    "[{}/{}] the English formula `{}` reads `{}` here; typed, it shows `{}`; typing that back: {}",
+                    lang, locale, formula, shown, c1.content, detail
+                ),
+            });
+            Outcome { d, first: Some(c1), changed_text: true }
+        }
+        Err(e) => Outcome {
+            d: Some(Disagreement {
+                sig: format!("panic at={}", e.rsplit(" @ ").next().unwrap_or("?")),
+                case,
+                detail: format!("[{}/{}] corpus formula `{}` panics: {}", lang, locale, formula, e),
+            }),
+            first: None,
+            changed_text: false,
+        },
+    }
+}
+
+fn casings(s: &str) -> Vec<String> {
+    let lower = s.to_lowercase();
+    let upper = s.to_uppercase();
+    let mut cap = String::new();
+    for (i, c) in lower.chars().enumerate() {
+        if i == 0 {
+            cap.extend(c.to_uppercase());
+        } else {
+            cap.push(c);
+        }
+    }
+    let mut v = vec![upper, lower, cap];
+    v.dedup();
+    v
+}
+
+/// Boolean and error names of every language, in three casings.
+pub fn names_family() -> Vec<String> {
+    let mut set = BTreeSet::new();
+    for l in LANGS {
+        let language = get_language(l).expect("language");
+        for c in casings(&language.booleans.r#true) {
+            set.insert(c);
+        }
+        for c in casings(&language.booleans.r#false) {
+            set.insert(c);
+        }
+        for e in all_errors() {
+            for c in casings(&e.to_localized_error_string(language)) {
+                set.insert(c);
+            }
+        }
+    }
+    set.into_iter().collect()
+}
+
+#[derive(Default)]
+struct Tally {
+    ds: Vec<Disagreement>,
+    n: u64,
+    nontrivial: u64,
+    outcomes: BTreeSet<String>,
+    by_kind: std::collections::BTreeMap<String, u64>,
+}
+
+impl Tally {
+    fn take(&mut self, o: Outcome) {
+        self.n += 1;
+        if let Some(c1) = &o.first {
+            let non_text = !matches!(c1.kind, Kind::Text(_));
+            if non_text || o.changed_text || c1.style.quote_prefix {
+                self.nontrivial += 1;
+            }
+            let cur = ["$", "€", "£"];
+            let k = format!("{}|{}|{}", c1.kind.name(), fmt_kind(&c1.style.num_fmt, &cur).name(), c1.style.quote_prefix);
+            *self.by_kind.entry(c1.kind.name().to_string()).or_insert(0) += 1;
+            self.outcomes.insert(k);
+        }
+        if let Some(d) = o.d {
+            self.ds.push(d);
+        }
+    }
+}
+
+pub fn pairs() -> Vec<(&'static str, &'static str)> {
+    let mut v = vec![];
+    for l in LANGS {
+        for loc in LOCALES {
+            v.push((l, loc));
+        }
+    }
+    v
+}
+
+pub fn run(run: &mut Run) {
+    let max_len: usize = if run.tier.thorough() { 5 } else { 4 };
+    let prs = pairs();
+    let k = NUM_ALPHABET.len();
+    let names = names_family();
+    // units per pair: one per first numeric symbol, one for the rest
+    let per_pair = k + 1;
+    let n_units = prs.len() * per_pair;
+    let res = crate::env::par_units(n_units, |u| {
+        let (lang, locale) = prs[u / per_pair];
+        let w = u % per_pair;
+        let mut p = Pair::new(lang, locale);
+        let mut t = Tally::default();
+        if w < k {
+            for len in 1..=max_len {
+                for_each_with_prefix(&NUM_ALPHABET, &[w], len, &mut |s| {
+                    t.take(check_input(&mut p, s, "numeric"));
+                });
+            }
+        } else {
+            for len in 1..=3 {
+                for_each_with_prefix(&FORMULA_ALPHABET, &[], len, &mut |s| {
+                    t.take(check_input(&mut p, s, "formula-ish"));
+                });
+            }
+            p.always_evaluate = true;
+            for s in LOOKALIKES {
+                t.take(check_input(&mut p, s, "look-alike"));
+            }
+            p.always_evaluate = false;
+            for s in &names {
+                t.take(check_input(&mut p, s, "names"));
+            }
+            for f in CORPUS {
+                t.take(check_corpus(lang, locale, f));
+            }
+        }
+        t
+    });
+    let mut total = Tally::default();
+    for r in res {
+        match r {
+            Ok(t) => {
+                run.add_all(t.ds);
+                total.n += t.n;
+                total.nontrivial += t.nontrivial;
+                total.outcomes.extend(t.outcomes);
+                for (k, v) in t.by_kind {
+                    *total.by_kind.entry(k).or_insert(0) += v;
+                }
+            }
+            Err(e) => run.machinery_errors.push(format!("unit panicked: {}", e)),
+        }
+    }
+    let per_pair_inputs = crate::fnum::count_strings(k, max_len)
+        + crate::fnum::count_strings(FORMULA_ALPHABET.len(), 3)
+        + LOOKALIKES.len() as u64
+        + names.len() as u64
+        + CORPUS.len() as u64;
+    if total.n != per_pair_inputs * prs.len() as u64 {
+        run.machinery_errors.push(format!("enumerated {} inputs, expected {}", total.n, per_pair_inputs * prs.len() as u64));
+    }
+    run.evaluations = total.n;
+    run.states = total.n;
+    run.transitions = total.n * 2;
+    run.traces = total.n;
+    run.nontrivial = total.nontrivial;
+    run.rule = "an input is non-trivial when the first cell is not plain text (number, boolean, error, formula), or is quote-prefixed, or its displayed content differs from what was typed".into();
+    run.distinct_outcomes = total.outcomes.len() as u64;
+    run.bound = json!({
+        "pairs": prs.iter().map(|(a, b)| format!("{}/{}", a, b)).collect::<Vec<_>>(),
+        "numeric_alphabet": NUM_ALPHABET.iter().collect::<String>(),
+        "numeric_max_length": max_len,
+        "formula_alphabet": FORMULA_ALPHABET.iter().collect::<String>(),
+        "formula_max_length": 3,
+        "look_alikes": LOOKALIKES.len(),
+        "boolean_and_error_names": names.len(),
+        "corpus_formulas": CORPUS.len(),
+        "inputs_per_pair": per_pair_inputs,
+    });
+    run.extra.insert("first_cell_kinds".into(), json!(total.by_kind));
+    run.sample(json!({"lang": "es", "locale": "es", "input": "TRUE", "shows": "VERDADERO"}));
+    run.sample(json!({"lang": "en", "locale": "de", "input": "1,5", "shows": "1,5"}));
+    run.sample(json!({"lang": "fr", "locale": "fr", "input": "=SUM({1.5,2})", "family": "corpus"}));
+    run.exhaustive = true;
+    run.assume("each input is typed into an empty, unformatted cell A1 of a fresh sheet; the displayed content is typed back into that same cell without clearing it");
+    run.assume("compared: get_localized_cell_content, the stored cell kind (number/boolean/error/text/formula) with its payload, the resolved Style (all fields); numbers and formula results to 15 significant digits; formula cells are evaluated before reading");
+    run.assume("enumerated inputs that become formulas with a range operator `:` (e.g. `+1:5`, `+E:E`: whole rows/columns, up to a million spilled cells) are compared by text, kind and style only, without evaluating them; look-alikes and corpus formulas are always evaluated");
+    run.assume("links attached by URL/e-mail detection are not part of the comparison (the statement lists content, type, style and value)");
+    run.assume("corpus formulas are translated by the engine (typed in English in an en/en model whose locale and language are then switched); the translated text is the input typed in a fresh model of the target language/locale");
+}
+
+pub fn replay(case: &Value) -> Vec<Disagreement> {
+    let lang = case["lang"].as_str().unwrap_or("en");
+    let locale = case["locale"].as_str().unwrap_or("en");
+    let lang: &'static str = LANGS.iter().find(|l| **l == lang).copied().unwrap_or("en");
+    let locale: &'static str = LOCALES.iter().find(|l| **l == locale).copied().unwrap_or("en");
+    let x = case["input"].as_str().unwrap_or("");
+    let family = case["family"].as_str().unwrap_or("");
+    if family == "corpus" {
+        return check_corpus(lang, locale, x).d.into_iter().collect();
+    }
+    let mut p = Pair::new(lang, locale);
+    check_input(&mut p, x, family).d.into_iter().collect()
 }
